@@ -10,7 +10,7 @@
 (* log is the host-call log: recording host functions append to it.        *)
 (* A result <<"oneof", v1, v2>> means either value is correct.             *)
 (***************************************************************************)
-EXTENDS FValues
+EXTENDS FValues, FRegex
 
 \* names a formula cannot use for data: a bare name denotes the builtin if there is one
 BuiltinNames == {"now", "toDay", "date", "addDate", "year", "month", "day", "hour", "minute", "second",
@@ -108,6 +108,24 @@ RV(x) == <<"v", x>>
 RU == <<"u">>
 RE == <<"e">>
 
+\* a numeric text: [-] digits [. digits] [e [+-] digits] with at least one digit (the literal grammar plus a sign)
+IsNumericText(bs) ==
+  LET b == IF Len(bs) > 0 /\ bs[1] = 45 THEN Tail(bs) ELSE bs
+      ip == TakeDigits(b, 1)
+      p1 == 1 + Len(ip)
+      hasDot == p1 <= Len(b) /\ b[p1] = 46
+      fp == IF hasDot THEN TakeDigits(b, p1 + 1) ELSE <<>>
+      p2 == p1 + (IF hasDot THEN 1 + Len(fp) ELSE 0)
+      hasExp == p2 <= Len(b) /\ b[p2] \in {101, 69}
+      p3 == IF hasExp THEN (IF p2 + 1 <= Len(b) /\ b[p2 + 1] \in {43, 45} THEN p2 + 2 ELSE p2 + 1) ELSE p2
+      ed == IF hasExp THEN TakeDigits(b, p3) ELSE <<>>
+  IN /\ Len(ip) + Len(fp) > 0
+     /\ (hasExp => Len(ed) > 0 /\ Len(ed) <= 3)
+     /\ p3 + Len(ed) = Len(b) + 1
+NumericText(bs) == IF bs[1] = 45 THEN DNeg(FromLiteral(Tail(bs))) ELSE FromLiteral(bs)
+\* a word of letters other than the spellings of the special values: certainly not a number
+IsPlainWord(bs) == Len(bs) > 0 /\ (\A i \in 1..Len(bs) : bs[i] \in {97, 98, 99, 120, 121, 122}) 
+
 \* pure builtins on arguments of their own kinds: <<"v", value>> | <<"e">> | <<"u">>
 Pure(n, a) ==
   CASE n = "startWith" -> RV(Bool(IsPrefixB(a[2][2], a[1][2])))
@@ -129,10 +147,27 @@ Pure(n, a) ==
               IF Len(s) > k THEN RV(Str(SubSeq(s, 1, k)))
               ELSE IF n = "lpad" THEN RV(Str(Repeat(a[2][2][1], k - Len(s)) \o s))
               ELSE RV(Str(s \o Repeat(a[2][2][1], k - Len(s))))
+    \* regexp: pinned for the patterns of the oracle's pool on ASCII subjects without line feeds
+    [] n = "regexp" -> LET ps == {p \in RePool : ReRender(p) = a[2][2]} IN
+                       IF ps = {} \/ ~AllAscii(a[1][2]) \/ 10 \in {a[1][2][i] : i \in 1..Len(a[1][2])} THEN RU
+                       ELSE RV(Bool(ReMatch(CHOOSE p \in ps : TRUE, a[1][2])))
     [] n = "includes" -> RV(Bool(\E i \in 1..Len(a[1][2]) : a[1][2][i] = a[2]))
     [] n = "join" -> RV(Str(JoinB(a[1][2], a[2][2], 1)))
     \* numbers (C18)
     [] n = "abs" -> RV(NumOf(DAbs(DecOf(a[1]))))
+    \* conversions (C18)
+    [] n = "toInt" -> IF a[1][1] = "num" THEN (IF IntArgPinned(a[1]) THEN RV(NumOf(DTrunc(DecOf(a[1])))) ELSE RU)
+                      ELSE IF a[1][1] = "str" /\ IsNumericText(a[1][2]) THEN RV(NumOf(DTrunc(NumericText(a[1][2]))))
+                      ELSE RU
+    [] n = "toFloat" -> IF a[1][1] \in {"num", "nan", "inf"} THEN RV(a[1])
+                        ELSE IF a[1][1] = "strnum" THEN RV(<<"num", a[1][2], a[1][3], a[1][4]>>)
+                        ELSE IF a[1][1] = "str" /\ IsNumericText(a[1][2]) THEN RV(NumOf(NumericText(a[1][2])))
+                        ELSE IF a[1][1] = "str" /\ IsPlainWord(a[1][2]) THEN RV(<<"nan">>)
+                        ELSE RU
+    \* toString of a number is "a text that parses back to that number": kept symbolic
+    [] n = "toString" -> IF a[1][1] = "num" THEN RV(<<"strnum", a[1][2], a[1][3], a[1][4]>>)
+                         ELSE IF a[1][1] = "str" THEN RV(a[1]) ELSE RU
+    [] n = "finite" -> IF a[1][1] = "num" THEN RV(a[1]) ELSE RV(NumI(0))
     [] n = "ceil" -> RV(NumOf(DCeil(DecOf(a[1]))))
     [] n = "floor" -> RV(NumOf(DFloor(DecOf(a[1]))))
     [] n = "roundBank" -> RV(NumOf(DRoundHalfEven(DecOf(a[1]))))
